@@ -202,6 +202,21 @@ def impl(case):
     xk = [[case["names"].index(name), sorted(list(k) for k in last.excess_degree_keys[name])]
           for name in last.excess_degree_keys]
     xk_dups = any(len(set(map(tuple, ks))) != len(ks) for _, ks in xk)
+    # history on ONE graph object for the overall-degree variant: it is first asked about the graph with its last edge
+    # missing, the caller then adds that edge IN PLACE and asks again (a result memoised per graph object would be stale);
+    # the caller also damages the first answer
+    if G.number_of_edges() > 0 and len(case["edges"]) % 2 == 0:
+        u, v, data = list(G.edges(data=True))[-1]
+        data = dict(data)
+        G.remove_edge(u, v)
+        try:
+            first = JointExcessDegree.get_ejk(G)
+            if isinstance(first, dict):
+                first.clear()
+        except Exception:  # noqa: BLE001 - only the second answer is judged
+            pass
+        G.add_edge(u, v)
+        G.edges[u, v].update(data)
     plain = _dict_obs(JointExcessDegree.get_ejk(G))
     return {"calls": calls, "again": again, "xkeys": xk, "xkeys_dups": xk_dups, "plain": plain,
             "tnames": list(last.topology_names)}
